@@ -71,13 +71,13 @@ def agrees (e : Entry) : Bool :=
   | none => false
 
 /-
-Full-strength statement (FALSE on the current code, see the counterexamples below):
+Full-strength statement (FALSE on the current code because of the message-queue observers, see below):
   theorem schemas_agree : ∀ e ∈ appTable, agrees e = true
 -/
-def excluded : List String := ["MessIputSimcall", "MessIgetSimcall", "SemaphoreAcquisitionObserver"]
+def excluded : List String := ["MessIputSimcall", "MessIgetSimcall"]
 
-/-- finite table: `decide`.  Every (observer, kind) entry except the message-queue observers and the SEM_WAIT
-observer packs exactly what the checker-side constructor of that kind unpacks. -/
+/-- finite table: `decide`.  Every (observer, kind) entry except the message-queue observers packs exactly what the
+checker-side constructor of that kind unpacks (SEM_WAIT included since the repair of `sem-wait-capacity-signedness`). -/
 theorem schemas_agree_partial : ∀ e ∈ appTable, ¬ e.observer ∈ excluded → agrees e = true := by decide
 
 /-- D14: `MessIputSimcall::serialize` packs two pointers under the COMM_ASYNC_SEND tag, `CommSendTransition` unpacks
@@ -93,13 +93,25 @@ theorem mess_put_blocks :
         let c ← checkerSchema 10
         pure (decode c bs)) = some none := by decide
 
-/-- SEM_WAIT: `SemaphoreAcquisitionObserver::serialize` packs `get_capacity()` as `unsigned`, `SemaphoreTransition`
-unpacks `int`: same byte layout (so no hang), but a capacity ≥ 2^31 is read back negative. -/
-theorem schemas_agree_counterexample_sem_wait : agrees app_SemaphoreAcquisitionObserver_SEM_WAIT = false := by decide
-theorem sem_wait_same_layout :
-    (checkerSchema 22).map (sameLayout app_SemaphoreAcquisitionObserver_SEM_WAIT.app) = some true := by decide
+/-- what `SemaphoreAcquisitionObserver::serialize` packed for SEM_WAIT BEFORE the repair of
+`sem-wait-capacity-signedness` (`channel.pack(get_capacity())`, an `unsigned`), kept as a literal for the regression
+statements below; it now packs `pack<int>`: `[u32, bool, i32]`, what `SemaphoreTransition` unpacks. -/
+def oldSemWaitApp : List FieldTy := [.prim .u32, .prim .bool, .prim .u32]
+
+/-- **Regression (`sem-wait-capacity-signedness`).**  The old schema did not agree with the checker's (unsigned vs int),
+the generated one does. -/
+theorem schemas_agree_counterexample_sem_wait :
+    (checkerSchema 22).map (compatible oldSemWaitApp) = some false ∧
+    agrees app_SemaphoreAcquisitionObserver_SEM_WAIT = true := by decide
+/-- same byte layout (so no hang) ... -/
+theorem sem_wait_same_layout : (checkerSchema 22).map (sameLayout oldSemWaitApp) = some true := by decide
+/-- ... but a capacity ≥ 2^31 sent as unsigned was read back as another value; with the repaired schema the checker
+decodes exactly the (int) value the application packs. -/
 theorem sem_wait_misread :
-    (do let bs ← encode app_SemaphoreAcquisitionObserver_SEM_WAIT.app [.p (.nat 7), .p (.bool true), .p (.nat 3000000000)]
+    (do let bs ← encode oldSemWaitApp [.p (.nat 7), .p (.bool true), .p (.nat 3000000000)]
+        let c ← checkerSchema 22
+        decode c bs) = some ([.p (.nat 7), .p (.bool true), .p (.int (-1294967296))], []) ∧
+    (do let bs ← encode app_SemaphoreAcquisitionObserver_SEM_WAIT.app [.p (.nat 7), .p (.bool true), .p (.int (-1294967296))]
         let c ← checkerSchema 22
         decode c bs) = some ([.p (.nat 7), .p (.bool true), .p (.int (-1294967296))], []) := by decide
 
